@@ -1562,7 +1562,8 @@ Section Step.
       pose proof (restore_confined fl e st rr st1 Hsec H1 H3 HI Er) as Ch1.
       destruct (run_entries fl st1 es) as [l2 st2] eqn:Er2.
       assert (Ch2 : changed st1 st2) by (eapply IH; eauto; apply Ch1).
-      destruct rr as [[| | |] r2]; injection Hrun as _ <-; try (eapply changed_trans; eauto); exact Ch1.
+      destruct rr as [[| | |] r2]; injection Hrun as _ <-;
+        first [exact Ch1 | exact (changed_trans _ _ _ Ch1 Ch2)].
   Qed.
 
   (* ---------------------------------------------------------------- the close loop of the proposed fix *)
@@ -1707,5 +1708,5 @@ Proof.
   { unfold check_symlinks in Hcs. destruct (Nat.eqb (p_len (parse q)) 0); [now injection Hcs as _ <-|].
     destruct (get (st_cwd st) (root (st_fs st))) as [[| es m t |]|]; try (now injection Hcs as _ <-).
     destruct (p_comps (parse q)) eqn:Ec; [now injection Hcs as _ <-|]. eapply cs_loop_fail_noop; eauto. }
-  subst fs1. destruct st as [fs cwd um fx]. cbn. destruct s; congruence.
+  subst fs1. destruct st as [fs cwd um fx]. destruct s; [congruence|reflexivity|reflexivity|reflexivity].
 Qed.
